@@ -294,6 +294,7 @@ def _level_matrix(bs_k, bidx_k, vals):
 def _dot_problems(X, A, ctx):
     """every unit vector; returns problems (JSON-able).  Stops at the first failure."""
     M, N = A.shape
+    kept = []
     for j in range(N):
         e = np.zeros(N)
         e[j] = 1.0
@@ -307,6 +308,11 @@ def _dot_problems(X, A, ctx):
             return [["shape", list(y.shape), j]]
         if not np.array_equal(y, A[:, j]):
             return [["values", y.tolist()[:16], A[:, j].tolist()[:16], j]]
+        kept.append(y)
+    # the results of earlier products, still held by the caller, must not be changed by later products
+    for j, y in enumerate(kept):
+        if not np.array_equal(y, A[:, j]):
+            return [["aliased", y.tolist()[:16], A[:, j].tolist()[:16], j]]
     return []
 
 
@@ -367,6 +373,9 @@ def dot_problems(jobs, L):
     if r[0] == "shape":
         return [("dot:rectangular:result-size" if rect else "dot:%s:shape" % _routine(L),
                  "%s returned shape %s" % (what, r[1]))]
+    if r[0] == "aliased":
+        return [("dot:%s:aliased-result" % _routine(L), "%s: the result of product j=%d, kept by the caller, reads %s after later "
+                 "products with the same object (column of the dense matrix: %s)" % (what, r[3], r[1], r[2]))]
     return [("dot:%s:values" % _routine(L), "%s: j=%d gives %s, column of the dense matrix is %s" % (what, r[3], r[1], r[2]))]
 
 
